@@ -18,7 +18,7 @@ use std::{
 pub static DEF: PropDef = PropDef {
     id: "C05",
     level: "exploration",
-    total: |t| t.pick(64, 1600),
+    total: |t| t.pick(384, 4800),
     run,
     rule: "generated configurations: 1..3 networks (MTU in {68,100,1500,65535}; latency none/constant/variable 0..50 ms; throughput unlimited/constant/variable), 2..8 machines with 1..3 taps each (a machine may be attached to the same network twice), 1..200 frames sent concurrently from all machines at random virtual times to unicast / unknown / broadcast destinations with sizes MTU-1, MTU, MTU+1 and random; a harness link-level protocol on every machine records every hand-over (slot, source, destination, mtu, payload, virtual time), the H4 hook records every frame on the wire. Run on the paused clock so times are exact. Non-trivial = configuration with >=1 broadcast, >=1 machine that is neither sender nor destination of some unicast frame, and >=1 frame of exactly MTU or MTU+1 bytes; distinct by configuration hash.",
     assumptions: &[
